@@ -12,6 +12,7 @@ BASE_TERM = {
     "bg": {"c": [[99, 99], [48, 48], [70, 70]], "st": "st"},
     "name": [75, 99], "ver": [49, 46, 99], "form": "paren", "xst": "st",
     "cell": [20, 10], "area": [480, 800], "kid": 31, "kmsg": [79, 75], "da1": [54],
+    "envName": [], "envVer": [],  # $TERM_PROGRAM / $TERM_PROGRAM_VERSION ([] = unset)
 }
 
 W0 = {"icanon": True, "echo": True, "vmin": 1, "vtime": 0, "rest": 0}
@@ -129,7 +130,8 @@ def writes_of(op: str, term: dict, enabled: bool = True, ioctl_good: bool = Fals
     if not enabled or (op == "cellsize" and ioctl_good):
         return []
     qs = QUERIES[op]
-    if op in ("kitty", "auto") and "xtv" in term["sup"] and bytes(term["name"]).lower() == b"iterm2":
+    name = bytes(term["name"] if "xtv" in term["sup"] else term.get("envName", [])).lower()
+    if op in ("kitty", "auto") and name == b"iterm2":
         return qs[:1]
     return qs
 
